@@ -12,6 +12,7 @@ import (
 	"strconv"
 	"strings"
 	"unicode"
+	"unicode/utf16"
 	"unicode/utf8"
 )
 
@@ -59,6 +60,65 @@ func parseField(field string, line int) (any, error) {
 		return boolean, nil
 	}
 	return nil, fmt.Errorf("not a valid JSON - invalid value '%s' on line %d", field, line)
+}
+
+/*
+Decodes the body of a JSON string (the text between the quotes, escapes still present).
+Parameters:
+  - body - string body to decode.
+
+Returns:
+  - decoded string.
+*/
+func unquote(body string) string {
+	if str, err := strconv.Unquote(fmt.Sprintf(`"%s"`, body)); err == nil {
+		return str
+	}
+	// JSON escapes unknown to strconv.Unquote: \/ and surrogate pairs
+	var result strings.Builder
+	for i := 0; i < len(body); i++ {
+		if body[i] != '\\' || i+1 >= len(body) {
+			result.WriteByte(body[i])
+			continue
+		}
+		i++
+		switch body[i] {
+		case '"', '\\', '/':
+			result.WriteByte(body[i])
+		case 'b':
+			result.WriteByte('\b')
+		case 'f':
+			result.WriteByte('\f')
+		case 'n':
+			result.WriteByte('\n')
+		case 'r':
+			result.WriteByte('\r')
+		case 't':
+			result.WriteByte('\t')
+		case 'u':
+			if i+4 < len(body) {
+				if code, err := strconv.ParseUint(body[i+1:i+5], 16, 32); err == nil {
+					char := rune(code)
+					i += 4
+					if utf16.IsSurrogate(char) && i+6 < len(body) && body[i+1] == '\\' && body[i+2] == 'u' {
+						if low, err := strconv.ParseUint(body[i+3:i+7], 16, 32); err == nil {
+							if pair := utf16.DecodeRune(char, rune(low)); pair != utf8.RuneError {
+								char = pair
+								i += 6
+							}
+						}
+					}
+					result.WriteRune(char)
+					continue
+				}
+			}
+			result.WriteString("\\u")
+		default:
+			result.WriteByte('\\')
+			result.WriteByte(body[i])
+		}
+	}
+	return result.String()
 }
 
 /*
@@ -168,7 +228,7 @@ func parseList(json string, line *int) (List, int, error) {
 				continue
 			}
 			if char == '"' {
-				str, _ := strconv.Unquote(fmt.Sprintf(`"%s"`, val.String()))
+				str := unquote(val.String())
 				list.Add(str)
 				val.Reset()
 				state = stateValAfterString
@@ -279,7 +339,7 @@ func parseObject(json string, line *int) (Object, int, error) {
 			if char != ':' {
 				return nil, 0, fmt.Errorf("not a valid JSON - expecting ':', got '%s' on line %d", string(char), *line)
 			}
-			str, _ := strconv.Unquote(fmt.Sprintf(`"%s"`, key.String()))
+			str := unquote(key.String())
 			key.Reset()
 			key.WriteString(str)
 			val.Reset()
@@ -378,7 +438,7 @@ func parseObject(json string, line *int) (Object, int, error) {
 				continue
 			}
 			if char == '"' {
-				str, _ := strconv.Unquote(fmt.Sprintf(`"%s"`, val.String()))
+				str := unquote(val.String())
 				object.Set(key.String(), str)
 				state = stateValAfterString
 				continue
